@@ -56,6 +56,9 @@ pub struct Framing {
     /// PRIORITY (0x20) on a HEADERS frame
     #[serde(default)]
     pub cont_flags: u8,
+    /// undefined flag bits set on the HEADERS frame itself (0x02, 0x10, 0x40, 0x80 mean nothing there and must be ignored)
+    #[serde(default)]
+    pub hdr_flags: u8,
 }
 pub fn headers_frames(stream: u32, block: &[u8], f: &Framing) -> Vec<u8> {
     let mut cuts: Vec<usize> = f.splits.iter().copied().filter(|&c| c <= block.len()).collect();
@@ -71,7 +74,7 @@ pub fn headers_frames(stream: u32, block: &[u8], f: &Framing) -> Vec<u8> {
     for (i, p) in pieces.iter().enumerate() {
         let last = i + 1 == pieces.len();
         if i == 0 {
-            let mut flags = if last { END_HEADERS } else { 0 };
+            let mut flags = (if last { END_HEADERS } else { 0 }) | (f.hdr_flags & 0xd2);
             if f.end_stream {
                 flags |= END_STREAM;
             }
